@@ -436,8 +436,16 @@ def worldStep (st : State) (j : Json) : P (State × Json) := do
     let p ← fieldStr j "path"
     let kind ← (← field j "kind").getStr?
     match kind with
-    | "file" =>
+    | "file" | "dangling" | "linkfile" =>
+      -- a dangling link, or a link to a file, is an entry without children: it reads as a file
       match w.touchP p with
+      | .ok w' => return (st.setWorld id w', Json.mkObj [("ok", true)])
+      | .error e => return (st, result (fun (_ : Unit) => Json.null) (.error e))
+    | "relocate" =>
+      -- the directory is moved to another volume and a link is left in its place: nothing changes
+      return (st, Json.mkObj [("ok", true)])
+    | "linkdir" =>
+      match w.linkDirP (← fieldStr j "target") p with
       | .ok w' => return (st.setWorld id w', Json.mkObj [("ok", true)])
       | .error e => return (st, result (fun (_ : Unit) => Json.null) (.error e))
     | "dir" =>
